@@ -17,6 +17,9 @@ func Minimise(tape []uint64, try func([]uint64) bool, maxRuns int, maxTime time.
 		runs++
 		return try(t)
 	}
+	// once the budget is used up nothing more is tried - and no candidate is built either (copying a tape of a few
+	// hundred thousand entries once per entry is what "never returns" looks like)
+	spent := func() bool { return runs >= maxRuns || time.Since(start) > maxTime }
 	cur := append([]uint64(nil), tape...)
 	// 0. drop trailing zeros for free
 	trim := func(t []uint64) []uint64 {
@@ -27,7 +30,7 @@ func Minimise(tape []uint64, try func([]uint64) bool, maxRuns int, maxTime time.
 	}
 	// 1. truncate: binary search the shortest prefix that still fails
 	lo, hi := 0, len(cur)
-	for lo < hi && runs < maxRuns {
+	for lo < hi && !spent() {
 		mid := (lo + hi) / 2
 		if ok(cur[:mid]) {
 			hi = mid
@@ -41,7 +44,7 @@ func Minimise(tape []uint64, try func([]uint64) bool, maxRuns int, maxTime time.
 	cur = trim(cur)
 	// 2. zero chunks of halving size (keeps alignment of later draws)
 	for size := len(cur) / 2; size >= 1; size /= 2 {
-		for i := 0; i+size <= len(cur); i += size {
+		for i := 0; i+size <= len(cur) && !spent(); i += size {
 			allZero := true
 			for _, v := range cur[i : i+size] {
 				if v != 0 {
@@ -60,14 +63,14 @@ func Minimise(tape []uint64, try func([]uint64) bool, maxRuns int, maxTime time.
 				cur = cand
 			}
 		}
-		if runs >= maxRuns {
+		if spent() {
 			break
 		}
 	}
 	cur = trim(cur)
 	// 3. remove chunks (shifts later draws; often still fails)
 	for size := len(cur) / 2; size >= 1; size /= 2 {
-		for i := 0; i+size <= len(cur); {
+		for i := 0; i+size <= len(cur) && !spent(); {
 			cand := append(append([]uint64(nil), cur[:i]...), cur[i+size:]...)
 			if ok(cand) {
 				cur = cand
@@ -75,13 +78,16 @@ func Minimise(tape []uint64, try func([]uint64) bool, maxRuns int, maxTime time.
 				i += size
 			}
 		}
-		if runs >= maxRuns {
+		if spent() {
 			break
 		}
 	}
 	cur = trim(cur)
 	// 4. shrink single values: try 0, then 1, then halves
 	for i := range cur {
+		if spent() {
+			break
+		}
 		if cur[i] == 0 {
 			continue
 		}
@@ -98,7 +104,7 @@ func Minimise(tape []uint64, try func([]uint64) bool, maxRuns int, maxTime time.
 				}
 			}
 		}
-		if runs >= maxRuns {
+		if spent() {
 			break
 		}
 	}
